@@ -8,6 +8,7 @@
     M.<a>/<n>.<desc>/<n>.<desc>…   Object.defineProperties(O[a], {n: desc, …})
     C.<p>/<n>.<desc>/…             O.push(Object.create(p = '-' ? null-or-Object.prototype : O[p], {…}))
     F.<a>  S.<a>  E.<a>            Object.freeze / seal / preventExtensions
+    N.<kind>                       O.push(a runtime-created object): fproto func terr err regexp date
     <desc> = N (not an object) | <e>.<c>.<w>.<v>.<g>.<s>   with '-' = field absent;
              e,c,w ∈ 0|1; v = value code; g,s ∈ u (undefined) | b (not callable) | function index
   reply:    <model> <spec> <dev>   model/spec = per step `out|calls|obj|obj…` joined by ';'
@@ -37,8 +38,14 @@ def devStrict (h : MHeap) : Op → Bool
      | some o => match alookup n o.props with | some prop => !prop.configurable | none => false)
   | _ => false
 
+/-- `Dev_error_own_name`: `new Error(m)` creates an own `name` property (ES5: inherited only) -/
+def devErrName : Op → Bool
+  | .native .err => true
+  | _ => false
+
 def devStep (h : MHeap) (op : Op) (_h' : MHeap) : List String :=
-  if devStrict h op then ["strict_ignored"] else []
+  (if devStrict h op then ["strict_ignored"] else []) ++
+  (if devErrName op then ["error_own_name"] else [])
 
 def devRun (h : MHeap) : List Op → List String
   | [] => []
@@ -85,6 +92,12 @@ def op? (tok : String) : Option Op :=
   | [] => none
   | hd :: ents =>
     match hd.splitOn ".", ents with
+    | ["N", "fproto"], [] => some (.native .fproto)
+    | ["N", "func"], [] => some (.native .func)
+    | ["N", "terr"], [] => some (.native .terr)
+    | ["N", "err"], [] => some (.native .err)
+    | ["N", "regexp"], [] => some (.native .regexp)
+    | ["N", "date"], [] => some (.native .date)
     | ["P", s, a, n, v], [] => do pure (.put (← bool? s) (← nat? a) (← nat? n) (← nat? v))
     | ["X", s, a, n], [] => do pure (.del (← bool? s) (← nat? a) (← nat? n))
     | "D" :: a :: n :: d, [] => do pure (.defn (← nat? a) (← nat? n) (← desc? d))
